@@ -84,7 +84,9 @@ pub fn camel_name(stem: &str, rng: &mut Rng) -> String {
 
 /// snake_case field name around a stem
 pub fn snake_name(stem: &str, rng: &mut Rng) -> String {
-    match rng.below(6) {
+    match rng.below(7) {
+        // a word that starts with a digit followed by letters (`enable_2fa`, `is_4k`)
+        6 => format!("{}_{}{}", stem, rng.range(2, 9), rng.pick(&["fa", "d", "k", "x_mode"])),
         0 => stem.to_string(),
         // single-letter words in front (`r_g_b`, `x_y_offset`): a run of capitals once converted
         5 => format!("{}_{}_{}", rng.pick(&["r", "x", "u", "a"]), rng.pick(&["g", "y", "v", "b"]), stem),
